@@ -10,7 +10,7 @@ Open Scope nat_scope.
 
 (** * from Frag0Enum *)
 
-Definition the_crossing (fb : flat) : list nat := hd [] (fl_crossings fb).
+Definition the_crossing (fb : flat) : list nat := main_crossing_of fb.
 
 Lemma nodupb_NoDup xs : nodupb xs = true -> NoDup xs.
 Proof.
@@ -85,7 +85,7 @@ Qed.
 Lemma filter_map_comm {A B} (g : A -> B) (p : B -> bool) l : filter p (map g l) = map g (filter (fun x => p (g x)) l).
 Proof. induction l as [|x t IH]; [reflexivity|]. cbn. destruct (p (g x)); cbn; rewrite IH; reflexivity. Qed.
 
-Definition the_weight (fb : flat) : nat := hd 0 (fl_weights fb).
+Definition the_weight (fb : flat) : nat := nth (main_idx fb) (fl_weights fb) 0.
 
 Lemma forallb_eqb_all a l : forallb (Nat.eqb a) l = true -> forall x, In x l -> x = a.
 Proof. intros H x Hx. rewrite forallb_forall in H. specialize (H x Hx). apply Nat.eqb_eq in H. congruence. Qed.
